@@ -74,6 +74,12 @@ def make (c):
     if re.random () < 0.15:
         end = float (re.choice ([360.0, 360.0, 0.0, 180.0, -360.0, 720.0]))
         p0  = end - ps * (nph - 1)
+    # a fine elevation cut: several hundred zenith angles in one request (half-degree and quarter-degree steps)
+    rb = np.random.default_rng ([c ['seed'], 104, c ['i']])
+    if rb.random () < 0.1:
+        nth = int (rb.choice ([361, 300, 513, 721]))
+        t0, ts = (0.0, (88.0 if gnd else 180.0) / (nth - 1))
+        nph = int (rb.integers (1, 3))
     spec ['ff'] = dict ( theta = [t0, ts, nth], phi = [p0, ps, nph]
                        , pwr = float (10 ** rng.uniform (-3, 4)), dist = float (10 ** rng.uniform (0, 5))
                        , pwr2 = float (10 ** rng.uniform (-3, 4)), dist2 = float (10 ** rng.uniform (0, 5)))
@@ -221,6 +227,33 @@ def check (c):
         mx = max (abs (et).max (), abs (ep).max (), 1e-300)
         dev = max (abs (np.array (m.far_field.e_theta) - et).max (), abs (np.array (m.far_field.e_phi) - ep).max ()) / mx
         judge ('point-moment.re-solved', dev, 1e-4, 'after changing the sources on the same object the far field deviates %.3g of the maximum from the integral of the new currents' % dev)
+    # ---- the report of a run that asks for near field (at a power level of its own) and far field together: the V/m
+    # table is the field of the currents for the power the sources deliver, at the distance asked for
+    if c.get ('i', 0) % 6 == 0 and 'corpus' not in c:
+        from pmv.oracles import report
+        lam_ = gen.C_MHZ / m.f
+        D_   = float (ff ['dist'])
+        argv = gen.to_argv (spec, with_sources = False)        # (one source of 1 V on pulse 1)
+        extra = ['--theta=%r,%r,%d' % (10.0, 25.0, 3), '--phi=%r,%r,%d' % (0.0, 90.0, 2), '--option', 'far-field-absolute', '--ff-distance', repr (D_)
+                , '--option', 'near-field', '--near-field=%r,%r,%r,1,1,1,1,1,1' % (3 * lam_, 2 * lam_, 3 * lam_), '--nf-power', repr (float (ff ['pwr']))]
+        rr = common.run_main (argv + extra)
+        if rr ['kind'] == 'exception':
+            raise common.Repo_Crash (rr ['exc'], 'main(near + far)')
+        if rr ['ret'] is None:
+            rep = report.parse (rr ['out'])
+            mc  = common.build_argv (argv)
+            observe.solve (mc)
+            common.guarded (lambda: mc.compute_far_field (MM.Angle (10.0, 25.0, 3), MM.Angle (0.0, 90.0, 2), dist = D_), 'compute_far_field')
+            et_, ep_ = np.abs (np.array (mc.far_field.e_theta)), np.abs (np.array (mc.far_field.e_phi))
+            rows = (rep.get ('far_abs') or {}).get ('rows') or []
+            mon ['report.near+far'] = 1
+            if len (rows) != 6:
+                viol.append (dict (monitor = 'report.near+far', key = 'V/m-table-rows', msg = '%d rows in the V/m table of a run with near and far field for 3 x 2 angles' % len (rows)))
+            else:
+                got = np.array ([[report.num (r [2]), report.num (r [4])] for r in rows])
+                want = np.array ([[et_ [i, j], ep_ [i, j]] for j in range (2) for i in range (3)]) if et_.shape == (3, 2) else np.array ([[et_ [j, i], ep_ [j, i]] for j in range (2) for i in range (3)])
+                dv = float (np.abs (got - want).max () / max (want.max (), 1e-300))
+                judge ('report.near+far', dv, 2e-3, 'V/m table of a run that also asks for the near field at %.4g W: deviates %.3g of the maximum from the field for the power of the sources' % (ff ['pwr'], dv), key = 'V/m-with-near-field-request')
     ncomp = int ((np.abs (np.array ([h ['tau'] for h in ffref.halves (m)])).max (0) > 1e-6).sum ())
     sig = gen.signature (spec, m, extra = ['comp%d' % ncomp, 'valid%d' % ok])
     return dict ( status = 'violation' if viol else 'held', sig = sig, nontrivial = bool (ncomp > 1 or m.media is not None)
